@@ -32,6 +32,9 @@
 (*   set(kids, frozen)                  a set / frozenset used as a spec (Fill / argument mode)   *)
 (*   sget(name, form)  sset(names, kids)  aset(name)     S.v / S['v'],  S(v=arg),  A.v            *)
 (*   specs(kids, scope)                 Spec(x, scope={name: value})                              *)
+(*   ntuple(kids)                       a namedtuple instance used as a (chain) spec              *)
+(* Heap cells beyond GlomData's: eqall / eqraise (attribute objects with a hostile __eq__),       *)
+(* gen ([cls, items, pulled]: a one-shot iterator).                                               *)
 (* The top-level call  glom(target, spec, default=, skip_exc=, scope=)  is RunTop.                *)
 EXTENDS GlomAccess
 
@@ -66,6 +69,26 @@ Catches(classes, e) == \E c \in 1..Len(classes) : classes[c] \in Supers(e)
 IsNum(v) == v.k \in {"int", "bool"}
 NumOf(v) == IF v.k = "int" THEN v.i ELSE IF v.b THEN 1 ELSE 0
 PyEq(a, b) == IF IsNum(a) /\ IsNum(b) THEN NumOf(a) = NumOf(b) ELSE a = b
+\* attribute objects, among them two with a hostile __eq__: "eqall" claims to be equal to everything,
+\* "eqraise" raises TypeError when compared with anything that is not of its own class
+ObjLike == {"obj", "eqall", "eqraise"}
+\* v == s  /  v in (.., s, ..)  as Coalesce's skip option performs it, s a scalar or one of the two
+\* skip-only values [k: "elist"] / [k: "edict"] (an empty list / dict literal): "t", "f" or "raise"
+SkipEq(heap, v, s) ==
+  IF IsRef(v) THEN
+    LET c == heap[v.a] IN
+    CASE c.cls = "eqall"   -> "t"
+      [] c.cls = "eqraise" -> "raise"
+      [] s.k = "elist"     -> IF c.cls = "list" /\ c.items = <<>> THEN "t" ELSE "f"
+      [] s.k = "edict"     -> IF c.cls \in {"dict", "odict"} /\ c.items = <<>> THEN "t" ELSE "f"
+      [] OTHER             -> "f"
+  ELSE IF PyEq(v, s) THEN "t" ELSE "f"
+\* one-shot iterators: a "gen" cell yields its items once; pulled counts what has been taken
+IsGen(heap, v) == IsRef(v) /\ heap[v.a].cls = "gen"
+Pull(st, v, n) ==          \* n more items have been pulled from v
+  IF IsGen(st.heap, v)
+  THEN [st EXCEPT !.heap[v.a] = [@ EXCEPT !.items = SubSeq(@, n + 1, Len(@)), !.pulled = @ + n]]
+  ELSE st
 \* == between two distinct containers is structural in Python: not modelled
 EqUnknown(heap, a, b) ==
   IsRef(a) /\ IsRef(b) /\ a # b /\ heap[a.a].cls # "obj" /\ heap[b.a].cls # "obj"
@@ -82,14 +105,14 @@ PySetKey(items, key, val) ==
 HashKind(heap, v) ==
   IF ~IsRef(v) THEN "yes"
   ELSE LET c == heap[v.a].cls IN
-       IF c \in {"list", "dict", "odict", "set"} THEN "no" ELSE IF c = "obj" THEN "yes" ELSE "unk"
+       IF c \in {"list", "dict", "odict", "set"} THEN "no" ELSE IF c \in {"obj", "gen"} THEN "yes" ELSE "unk"
 
 Truthy(heap, v) ==
   CASE v.k = "bool" -> v.b
     [] v.k = "int"  -> v.i # 0
     [] v.k = "str"  -> v.s # ""
     [] v.k = "none" -> FALSE
-    [] v.k = "ref"  -> heap[v.a].cls = "obj" \/ Len(heap[v.a].items) > 0
+    [] v.k = "ref"  -> heap[v.a].cls \in ObjLike \cup {"gen"} \/ Len(heap[v.a].items) > 0
     [] OTHER        -> TRUE
 TruthUnknown(v) == v.k = "sent"
 
@@ -100,7 +123,7 @@ Res(ok, v, exc, unk) == [ok |-> ok, v |-> v, exc |-> exc, unk |-> unk]
 Iterate(heap, v) ==
   IF ~IsRef(v) THEN Res(FALSE, <<>>, "UnregisteredTarget", FALSE)
   ELSE LET c == heap[v.a] IN
-       CASE c.cls \in {"list", "tuple"}     -> Res(TRUE, c.items, "", FALSE)
+       CASE c.cls \in {"list", "tuple", "gen"} -> Res(TRUE, c.items, "", FALSE)
          [] c.cls \in {"dict", "odict"}     -> Res(TRUE, Keys(c.items), "", FALSE)
          [] c.cls \in {"set", "frozenset"}  -> Res(TRUE, c.items, "", Len(c.items) > 1)   \* hash order
          [] OTHER                           -> Res(FALSE, <<>>, "UnregisteredTarget", FALSE)
@@ -109,7 +132,7 @@ Iterate(heap, v) ==
 Unpack(heap, v) ==
   IF IsRef(v) THEN
     LET c == heap[v.a] IN
-    CASE c.cls \in {"list", "tuple"}     -> Res(TRUE, c.items, "", FALSE)
+    CASE c.cls \in {"list", "tuple", "gen"} -> Res(TRUE, c.items, "", FALSE)      \* (a generator is drained: see Pull)
       [] c.cls \in {"dict", "odict"}     -> Res(TRUE, Keys(c.items), "", FALSE)
       [] c.cls \in {"set", "frozenset"}  -> Res(TRUE, c.items, "", Len(c.items) > 1)
       [] OTHER                           -> Res(FALSE, <<>>, "TypeError", FALSE)
@@ -129,8 +152,8 @@ UpdUnpack(heap, v) ==
   IF IsRef(v) THEN
     LET c == heap[v.a] IN
     CASE c.cls \in {"dict", "odict"} -> Res(TRUE, c.items, "", FALSE)
-      [] c.cls = "obj"               -> Res(FALSE, <<>>, "TypeError", FALSE)
-      [] OTHER                       -> Res(c.items = <<>>, <<>>, "TypeError", c.items # <<>>)
+      [] c.cls \in ObjLike          -> Res(FALSE, <<>>, "TypeError", FALSE)
+      [] OTHER                       -> Res(c.items = <<>>, <<>>, "TypeError", c.items # <<>> \/ c.cls = "gen")
   ELSE IF v.k = "str" THEN Res(v.s = "", <<>>, "ValueError", v.s # "")
   ELSE Res(FALSE, <<>>, "TypeError", FALSE)
 
@@ -173,7 +196,7 @@ FnApply(st, name, args, kw) ==
   ELSE CASE name = "ident"    -> ROk(s1, x)
          [] name = "inc"      -> IF IsNum(x) THEN ROk(s1, VInt(NumOf(x) + 1)) ELSE RErr(s1, "TypeError")
          [] name = "size"     -> IF IsRef(x) THEN
-                                   IF h[x.a].cls = "obj" THEN RErr(s1, "TypeError") ELSE ROk(s1, VInt(Len(h[x.a].items)))
+                                   IF h[x.a].cls \in ObjLike \cup {"gen"} THEN RErr(s1, "TypeError") ELSE ROk(s1, VInt(Len(h[x.a].items)))
                                  ELSE IF x.k = "str" THEN
                                    IF x.s \in DOMAIN StrChars THEN ROk(s1, VInt(Len(StrChars[x.s])))
                                    ELSE ROk(Unk(s1), VInt(0))
@@ -253,9 +276,11 @@ CallArgs(s)   == IF IsNoneConst(s.args) THEN [op |-> "tuple", kids |-> <<>>] ELS
 CallKwargs(s) == IF IsNoneConst(s.kwargs) THEN [op |-> "dict", ordered |-> FALSE, keys |-> <<>>, kids |-> <<>>] ELSE s.kwargs
 
 ArgEnv(env) == [env EXCEPT !.minmode = "arg"]
+\* `val is SKIP`: the sentinels are recognised by identity (mutant: by ==, which a hostile object satisfies)
+IsSkip(env, st, v) == v = SKIP \/ (env.mut = "sentinel_by_eq" /\ IsRef(v) /\ st.heap[v.a].cls = "eqall")
 
 RECURSIVE Eval(_, _, _, _), EvalCore(_, _, _, _), Traced(_, _, _, _), TRooted(_, _, _, _), AutoMode(_, _, _, _), Literal(_, _, _, _), Glomit(_, _, _, _),
-          DictLoop(_, _, _, _, _, _), ListLoop(_, _, _, _, _, _), TupleLoop(_, _, _, _, _),
+          DictLoop(_, _, _, _, _, _), ListLoop(_, _, _, _, _, _, _), TupleLoop(_, _, _, _, _),
           LitSeq(_, _, _, _, _, _, _), LitDict(_, _, _, _, _, _), CoalLoop(_, _, _, _, _),
           EagerRest(_, _, _, _, _), CallEval(_, _, _, _), InvokeEval(_, _, _, _),
           ChunkLoop(_, _, _, _, _, _, _, _), EvalSeq(_, _, _, _, _, _), EvalKw(_, _, _, _, _, _, _, _)
@@ -307,8 +332,8 @@ AutoMode(st, env, t, s) ==
          IF s.kids = <<>> THEN RErr(st, "IndexError")          \* spec[0]
          ELSE LET it == Iterate(st.heap, t) IN
               IF ~it.ok THEN RErr(st, it.exc)
-              ELSE ListLoop(UnkIf(st, it.unk), env, it.v, s.kids[1], 1, <<>>)
-    [] s.op = "tuple" -> TupleLoop(st, env, t, s.kids, 1)
+              ELSE ListLoop(UnkIf(st, it.unk), env, it.v, s.kids[1], 1, <<>>, t)
+    [] s.op \in {"tuple", "ntuple"} -> TupleLoop(st, env, t, s.kids, 1)       \* isinstance(spec, tuple)
     [] s.op = "fn"    -> FnApply(st, s.name, <<t>>, <<>>)
     [] OTHER          -> RErr(st, "TypeError")                  \* not a spec
 
@@ -317,7 +342,7 @@ DictLoop(st, env, t, s, i, acc) ==
   IF i > Len(s.kids) THEN Build(st, IF s.ordered THEN "odict" ELSE "dict", acc)
   ELSE LET r == Eval(st, env, t, s.kids[i]) key == s.keys[i] IN
        IF ~r.ok THEN r
-       ELSE IF r.v = SKIP \/ (env.mut = "dict_stop_skips" /\ r.v = STOP) THEN DictLoop(r.st, env, t, s, i + 1, acc)
+       ELSE IF IsSkip(env, r.st, r.v) \/ (env.mut = "dict_stop_skips" /\ r.v = STOP) THEN DictLoop(r.st, env, t, s, i + 1, acc)
        ELSE IF key.lit THEN DictLoop(r.st, env, t, s, i + 1, PySetKey(acc, key.v, r.v))
        ELSE LET kr == Eval(r.st, env, t, key.s) IN
             IF ~kr.ok THEN kr
@@ -326,13 +351,14 @@ DictLoop(st, env, t, s, i, acc) ==
                  ELSE DictLoop(UnkIf(kr.st, hk = "unk"), env, t, s, i + 1, PySetKey(acc, kr.v, r.v))
 
 \* _handle_list
-ListLoop(st, env, items, sub, i, acc) ==
+\* (src: the iterated target; a one-shot iterator is pulled item by item, nothing beyond a STOP)
+ListLoop(st, env, items, sub, i, acc, src) ==
   IF i > Len(items) THEN Build(st, "list", acc)
-  ELSE LET r == Eval(st, env, items[i], sub) IN
+  ELSE LET r == Eval(Pull(st, src, 1), env, items[i], sub) IN
        IF ~r.ok THEN r
-       ELSE IF r.v = SKIP THEN ListLoop(r.st, env, items, sub, i + 1, acc)
-       ELSE IF r.v = STOP THEN Build(r.st, "list", acc)
-       ELSE ListLoop(r.st, env, items, sub, i + 1, Append(acc, r.v))
+       ELSE IF IsSkip(env, r.st, r.v) THEN ListLoop(r.st, env, items, sub, i + 1, acc, src)
+       ELSE IF r.v = STOP THEN Build(IF env.mut = "list_drains_after_stop" THEN Pull(r.st, src, Len(items) - i) ELSE r.st, "list", acc)
+       ELSE ListLoop(r.st, env, items, sub, i + 1, Append(acc, r.v), src)
 
 \* _handle_tuple (also Pipe)
 TupleLoop(st, env, res, kids, i) ==
@@ -409,8 +435,12 @@ Glomit(st, env, t, s) ==
 
 \* does the skip option reject this value?  a predicate is a user callable: logged, may raise
 SkipTest(st, sk, v) ==
-  CASE sk.kind = "val"   -> [st |-> st, ok |-> TRUE, hit |-> PyEq(v, sk.v), exc |-> ""]
-    [] sk.kind = "tuple" -> [st |-> st, ok |-> TRUE, hit |-> \E j \in 1..Len(sk.vs) : PyEq(v, sk.vs[j]), exc |-> ""]
+  CASE sk.kind = "val"   -> LET e == SkipEq(st.heap, v, sk.v) IN
+                            [st |-> st, ok |-> e # "raise", hit |-> e = "t", exc |-> IF e = "raise" THEN "TypeError" ELSE ""]
+    [] sk.kind = "tuple" -> \* v in (..): identity or == against each member in turn
+                            LET raises == \E j \in 1..Len(sk.vs) : SkipEq(st.heap, v, sk.vs[j]) = "raise"
+                                hits   == \E j \in 1..Len(sk.vs) : SkipEq(st.heap, v, sk.vs[j]) = "t" IN
+                            [st |-> st, ok |-> ~raises, hit |-> hits /\ ~raises, exc |-> IF raises THEN "TypeError" ELSE ""]
     [] sk.kind = "pred"  -> LET r == FnApply(st, sk.name, <<v>>, <<>>) IN
                             IF r.ok THEN [st |-> UnkIf(r.st, TruthUnknown(r.v)), ok |-> TRUE,
                                           hit |-> Truthy(r.st.heap, r.v), exc |-> ""]
@@ -448,7 +478,8 @@ CallEval(st, env, t, s) ==
   IF ~k.ok THEN k ELSE
   LET ua == Unpack(k.st.heap, a.v)
       uk == KwUnpack(k.st.heap, k.v) IN
-  IF ~ua.ok \/ ~uk.ok THEN RErr(k.st, "TypeError") ELSE Apply(UnkIf(k.st, ua.unk), f.v, ua.v, uk.v)
+  IF ~ua.ok \/ ~uk.ok THEN RErr(UnkIf(k.st, IsGen(k.st.heap, a.v)), "TypeError")
+  ELSE Apply(Pull(UnkIf(k.st, ua.unk), a.v, Len(ua.v)), f.v, ua.v, uk.v)
 
 \* Invoke.glomit
 InvokeEval(st, env, t, s) ==
@@ -475,7 +506,8 @@ ChunkLoop(st, env, t, s, fv, i, args, kw) ==
            IF ~a.ok THEN a ELSE
            LET ua == IF noa THEN Res(TRUE, <<>>, "", FALSE) ELSE Unpack(a.st.heap, a.v) IN
            IF ~ua.ok THEN RErr(a.st, ua.exc) ELSE
-           LET k == IF nok THEN ROk(UnkIf(a.st, ua.unk), VNone) ELSE Eval(UnkIf(a.st, ua.unk), env, t, c.kw[1]) IN
+           LET a2 == IF noa THEN a.st ELSE Pull(UnkIf(a.st, ua.unk), a.v, Len(ua.v))          \* list.extend drains
+               k == IF nok THEN ROk(a2, VNone) ELSE Eval(a2, env, t, c.kw[1]) IN
            IF ~k.ok THEN k ELSE
            LET uk == IF nok THEN Res(TRUE, <<>>, "", FALSE) ELSE UpdUnpack(k.st.heap, k.v) IN
            IF ~uk.ok THEN RErr(UnkIf(k.st, uk.unk), uk.exc) ELSE
@@ -547,6 +579,8 @@ Outcome(r, n0) ==
       exc   |-> r.exc,
       log   |-> [i \in 1..Len(r.st.log) |->
                    [fn |-> r.st.log[i].fn, args |-> cvals(r.st.log[i].args), kw |-> cpairs(r.st.log[i].kw)]],
+      gens  |-> LET gs == SelectSeq([a \in 1..n0 |-> a], LAMBDA a : heap[a].cls = "gen") IN
+                [j \in 1..Len(gs) |-> <<gs[j], heap[gs[j]].pulled>>],     \* how far each one-shot iterator was pulled
       out   |-> [i \in 1..Len(r.st.out) |-> [k |-> r.st.out[i].k, v |-> cv(r.st.out[i].v)]],
       cells |-> [i \in 1..Len(order) |-> ccell(heap[order[i]])],
       skip  |-> IF r.st.div THEN "div" ELSE IF r.st.unk \/ etuple THEN "unk" ELSE ""]
@@ -606,13 +640,17 @@ ListLaw(st, env, t, s, W) ==
   ELSE LET n  == Len(it.v)
            rs == Thread(st, env, it.v, [i \in 1..n |-> s.kids[1]], "FailedOrStop", 1)
            m  == Len(rs) IN
-       IF m > 0 /\ ~rs[m].ok THEN W = rs[m]
-       ELSE /\ FreshCell(W, st)
-            /\ W.st.log = LastSt(rs, st).log
-            /\ LET c == W.st.heap[W.v.a]
-                   kept == SelectSeq([i \in 1..m |-> i], LAMBDA i : rs[i].v \notin {SKIP, STOP}) IN
-               /\ c.cls = "list"
-               /\ c.items = [j \in 1..Len(kept) |-> rs[kept[j]].v]
+       \* a one-shot iterator is pulled exactly as far as items were evaluated: all of it, or up to
+       \* and including the item that failed or yielded STOP
+       /\ (IsGen(st.heap, t) => W.st.heap[t.a].pulled = st.heap[t.a].pulled + m)
+       /\ IF m > 0 /\ ~rs[m].ok
+          THEN (IF IsGen(st.heap, t) THEN ~W.ok /\ W.exc = rs[m].exc /\ W.st.log = rs[m].st.log ELSE W = rs[m])
+          ELSE /\ FreshCell(W, st)
+               /\ W.st.log = LastSt(rs, st).log
+               /\ LET c == W.st.heap[W.v.a]
+                      kept == SelectSeq([i \in 1..m |-> i], LAMBDA i : rs[i].v \notin {SKIP, STOP}) IN
+                  /\ c.cls = "list"
+                  /\ c.items = [j \in 1..Len(kept) |-> rs[kept[j]].v]
 
 \* (L4) Coalesce: the first alternative that neither raises a skip_exc exception nor yields a
 \*      skipped value wins and nothing after it is evaluated (the log ends with that
@@ -656,8 +694,8 @@ CallLaw(st, env, t, s, W) ==
            ua == Unpack(st3.heap, rs[2].v)  uk == KwUnpack(st3.heap, rs[3].v) IN
        IF ua.ok /\ uk.ok /\ rs[1].v.k = "fn"
        THEN /\ NewLog(W, st3) = <<[fn |-> rs[1].v.s, args |-> ua.v, kw |-> uk.v]>>
-            /\ W = FnApply(UnkIf(st3, ua.unk), rs[1].v.s, ua.v, uk.v)
-       ELSE W = RErr(UnkIf(st3, ua.ok /\ uk.ok /\ ua.unk), "TypeError")   \* not callable with these values
+            /\ W = FnApply(Pull(UnkIf(st3, ua.unk), rs[2].v, Len(ua.v)), rs[1].v.s, ua.v, uk.v)   \* (*args drains an iterator)
+       ELSE ~W.ok /\ W.exc = "TypeError" /\ W.st.log = st3.log           \* not callable with these values
 
 \* (L7) Invoke: the parts are evaluated chunk by chunk in the order written, a keyword given
 \*      twice is taken from the later constants()/specs() chunk and the overridden spec is not
@@ -682,9 +720,12 @@ InvokeLaw(st, env, t, s, W) ==
       m  == Len(rs)
       good == IF m > 0 /\ ~rs[m].ok THEN m - 1 ELSE m        \* parts that evaluated successfully
       after(j) == IF j = 0 THEN st ELSE rs[j].st IN
-  \/ m > 0 /\ ~rs[m].ok /\ W = rs[m]                         \* a part failed: that failure, nothing later
+  \* (states are compared by their call logs: draining a one-shot iterator in star() changes the heap;
+  \*  when a part's value IS such an iterator, later parts may see it drained: not judged here)
+  \/ \E i \in 1..Len(rs) : rs[i].ok /\ IsGen(rs[i].st.heap, rs[i].v)
+  \/ m > 0 /\ ~rs[m].ok /\ ~W.ok /\ W.exc = rs[m].exc /\ W.st.log = rs[m].st.log     \* a part failed: that failure, nothing later
   \/ \E j \in 0..good :                                      \* the values of parts 1..j cannot be combined
-       W \in {RErr(after(j), "TypeError"), RErr(after(j), "ValueError")}
+       ~W.ok /\ W.exc \in {"TypeError", "ValueError"} /\ W.st.log = after(j).log
   \/ /\ good = n                                             \* every part once, in order, then the one call
      /\ Len(NewLog(W, after(n))) = 1
      /\ SubSeq(W.st.log, 1, Len(after(n).log)) = after(n).log
@@ -752,7 +793,7 @@ NodeLaw(st, env, t, s, W) ==
   LET genv == [env EXCEPT !.minmode = "none"]
       lit  == env.minmode = "arg" \/ env.mode = "fill" IN
   CASE s.op = "pipe"                   -> ChainLaw(st, genv, t, s, W)
-    [] s.op = "tuple" /\ ~lit          -> ChainLaw(st, env, t, s, W)
+    [] s.op \in {"tuple", "ntuple"} /\ ~lit -> ChainLaw(st, env, t, s, W)
     [] s.op = "dict" /\ ~lit /\ LitKeys(s) -> DictLaw(st, env, t, s, W)
     [] s.op = "list" /\ ~lit /\ s.kids # <<>> -> ListLaw(st, env, t, s, W)
     [] s.op = "fn" /\ env.minmode # "arg" -> FnLaw(st, t, s, W)
@@ -785,7 +826,7 @@ Lawful(st, env0, t, s) ==
       rest == [s EXCEPT !.kids = Tail(s.kids)]
       A == Eval(st, cenv, t, s.kids[1]) IN
   /\ NodeLaw(st, env, t, s, W)
-  /\ CASE s.op = "pipe" \/ (s.op = "tuple" /\ ~lit) ->
+  /\ CASE s.op = "pipe" \/ (s.op \in {"tuple", "ntuple"} /\ ~lit) ->
             s.kids # <<>> =>
               /\ Lawful(st, cenv, t, s.kids[1])
               /\ (A.ok /\ A.v # STOP => Lawful(A.st, IF A.v = SKIP THEN env ELSE Bound(env, s.kids[1], A.st),
@@ -825,7 +866,7 @@ RECURSIVE SumSlots(_, _)
 SumSlots(ss, i) == IF i > Len(ss) THEN 0 ELSE FnSlots(ss[i]) + SumSlots(ss, i + 1)
 FnSlots(s) ==
   CASE s.op = "fn" -> 1
-    [] s.op \in {"tuple", "pipe", "spec", "specs", "fill", "auto", "list", "set", "sset"} -> SumSlots(s.kids, 1)
+    [] s.op \in {"tuple", "ntuple", "pipe", "spec", "specs", "fill", "auto", "list", "set", "sset"} -> SumSlots(s.kids, 1)
     [] s.op = "inspect" -> SumSlots(s.kids, 1) + (IF s.bp = "" THEN 0 ELSE 1) + (IF s.pm = "" THEN 0 ELSE 1)
     [] s.op = "dict" -> SumSlots(s.kids, 1) + SumSlots([i \in 1..Len(s.keys) |->
                                                   IF s.keys[i].lit THEN [op |-> "const"] ELSE s.keys[i].s], 1)
@@ -838,7 +879,7 @@ RECURSIVE Iterates(_)
 Iterates(s) ==
   CASE s.op \in {"list", "ref"} -> TRUE
     [] s.op = "inspect" -> (s.rec /\ (s.bp # "" \/ s.pm # "")) \/ Iterates(s.kids[1])     \* hooks run at every level
-    [] s.op \in {"tuple", "pipe", "spec", "specs", "fill", "auto", "coalesce", "set", "sset"} ->
+    [] s.op \in {"tuple", "ntuple", "pipe", "spec", "specs", "fill", "auto", "coalesce", "set", "sset"} ->
          \E i \in 1..Len(s.kids) : Iterates(s.kids[i])
     [] s.op = "dict" -> \/ \E i \in 1..Len(s.kids) : Iterates(s.kids[i])
                         \/ \E i \in 1..Len(s.keys) : ~s.keys[i].lit /\ Iterates(s.keys[i].s)
